@@ -354,6 +354,11 @@ def main():
                         nontrivial += 1
                 k = impl.split(" ", 1)[0]
                 dist["impl:" + k] = dist.get("impl:" + k, 0) + 1
+                if "loadable-wf=" in verdict:
+                    # hypotheses of loaded_tokenizer_never_panics evaluated on this definition (non-vacuity evidence)
+                    key = "definitions_accepted_and_LoadableWF" if (impl.startswith("OK") and verdict.endswith("=1")) else \
+                          ("definitions_accepted_not_LoadableWF" if impl.startswith("OK") else "definitions_rejected")
+                    dist[key] = dist.get(key, 0) + 1
                 if len(samples) < 6 and (cases["evaluations"] % 997 == 1):
                     samples.append({"request": request[:400], "impl": impl[:200], "model": model[:200], "spec": verdict[:80]})
                 entry = {"request": request, "impl": impl, "model": model, "spec": verdict, "file": os.path.basename(f)}
